@@ -346,6 +346,703 @@ impl NodeHandle {
 pub open spec fn real(n: Node) -> bool { n.last_response is Some }
 pub open spec fn st(n: Node) -> NodeStatus { n.status_at(clock()) }
 
+
+// ================= bucket.rs =================
+//@begin const src/bucket.rs - MAX_BUCKET_SIZE
+pub const MAX_BUCKET_SIZE: usize = 8;
+//@end
+//@begin type src/bucket.rs - struct Bucket
+pub struct Bucket {
+    pub nodes: [Node; MAX_BUCKET_SIZE],
+}
+//@end
+pub open spec fn same_handle(a: Node, b: Node) -> bool { a.handle.id == b.handle.id && a.handle.addr == b.handle.addr }
+pub open spec fn unchanged_except(a: [Node; 8], b: [Node; 8], k: int) -> bool {
+    0 <= k < 8 && forall|j: int| 0 <= j < 8 && j != k ==> #[trigger] b[j] == a[j]
+}
+pub open spec fn first(b: Seq<Node>, p: spec_fn(Node) -> bool, i: int) -> int
+    decreases 8 - i
+{
+    if i >= 8 || i < 0 || b.len() != 8 { 8 } else if p(b[i]) { i } else { first(b, p, i + 1) }
+}
+pub proof fn lemma_first(b: Seq<Node>, p: spec_fn(Node) -> bool, i: int)
+    requires 0 <= i <= 8, b.len() == 8
+    ensures i <= first(b, p, i) <= 8, first(b, p, i) < 8 ==> p(b[first(b, p, i)]),
+        forall|j: int| i <= j < first(b, p, i) ==> !p(#[trigger] b[j])
+    decreases 8 - i
+{
+    if i < 8 && !p(b[i]) { lemma_first(b, p, i + 1); }
+}
+pub proof fn lemma_first_is(b: Seq<Node>, p: spec_fn(Node) -> bool, i: int, k: int)
+    requires b.len() == 8, 0 <= i <= k <= 8, forall|j: int| 0 <= j < k ==> !p(#[trigger] b[j]), k < 8 ==> p(b[k])
+    ensures first(b, p, i) == k
+    decreases k - i
+{
+    if i < k { lemma_first_is(b, p, i + 1, k); }
+}
+pub open spec fn p_same(n: Node) -> spec_fn(Node) -> bool { |x: Node| same_handle(x, n) }
+pub open spec fn p_bad() -> spec_fn(Node) -> bool { |x: Node| st(x) == NodeStatus::Bad }
+pub open spec fn p_lower(s: NodeStatus) -> spec_fn(Node) -> bool { |x: Node| rank(st(x)) < rank(s) }
+
+// the bucket after `add_node` as a function of the bucket before (repaired semantics: a Bad slot is preferred)
+pub open spec fn bucket_add_spec(b: Seq<Node>, n: Node) -> (Seq<Node>, bool) {
+    if st(n) == NodeStatus::Bad { (b, true) } else {
+        let s = first(b, p_same(n), 0);
+        if s < 8 { (b.update(s, b[s].update_spec(n)), true) } else {
+            let d = first(b, p_bad(), 0);
+            if d < 8 { (b.update(d, n), true) } else {
+                let q = first(b, p_lower(st(n)), 0);
+                if q < 8 { (b.update(q, n), true) } else { (b, false) }
+            }
+        }
+    }
+}
+impl Bucket {
+    pub open spec fn wf(&self) -> bool { forall|i: int| 0 <= i < 8 ==> (#[trigger] self.nodes[i]).wf() }
+
+//@begin fn src/bucket.rs impl:Bucket add_node props=C08
+    pub fn add_node(&mut self, new_node: Node) -> (r: bool)
+        requires new_node.wf(), old(self).wf(),
+            new_node.last_request is None || forall|i: int| 0 <= i < 8 && same_handle(#[trigger] old(self).nodes[i], new_node) ==> st(old(self).nodes[i]) != NodeStatus::Good,
+        ensures final(self).wf(),
+            (final(self).nodes@, r) == bucket_add_spec(old(self).nodes@, new_node),
+            old(self).nodup() ==> final(self).nodup(),
+            forall|j: int| 0 <= j < 8 && real(#[trigger] final(self).nodes[j]) ==> (real(old(self).nodes[j]) && same_handle(final(self).nodes[j], old(self).nodes[j])) || same_handle(final(self).nodes[j], new_node),
+            forall|j: int| 0 <= j < 8 ==> #[trigger] final(self).nodes[j] == old(self).nodes[j] || (same_handle(final(self).nodes[j], new_node) && real(new_node)),
+            forall|j: int| 0 <= j < 8 && real(#[trigger] old(self).nodes[j]) ==> real(final(self).nodes[j]) && same_handle(final(self).nodes[j], old(self).nodes[j]) || same_handle(final(self).nodes[j], new_node),
+            // at most one slot changes
+            exists|k: int| #[trigger] unchanged_except(old(self).nodes, final(self).nodes, k),
+            st(new_node) == NodeStatus::Bad ==> r && final(self).nodes == old(self).nodes,
+            // repeat offer: updated in place, never duplicated
+            st(new_node) != NodeStatus::Bad && (exists|i: int| 0 <= i < 8 && same_handle(#[trigger] old(self).nodes[i], new_node)) ==> r
+                && forall|j: int| 0 <= j < 8 && final(self).nodes[j] != #[trigger] old(self).nodes[j] ==> same_handle(old(self).nodes[j], new_node)
+                       && same_handle(final(self).nodes[j], new_node) && rank(st(final(self).nodes[j])) >= rank(st(old(self).nodes[j])),
+            // newcomer: victim has strictly lower standing, and is Bad whenever a Bad slot exists
+            st(new_node) != NodeStatus::Bad && !(exists|i: int| 0 <= i < 8 && same_handle(#[trigger] old(self).nodes[i], new_node)) ==>
+                (r <==> exists|i: int| 0 <= i < 8 && rank(st(#[trigger] old(self).nodes[i])) < rank(st(new_node)))
+                && (r ==> exists|k: int| #[trigger] unchanged_except(old(self).nodes, final(self).nodes, k) && final(self).nodes[k] == new_node
+                          && rank(st(old(self).nodes[k])) < rank(st(new_node))
+                          && ((exists|i: int| 0 <= i < 8 && st(#[trigger] old(self).nodes[i]) == NodeStatus::Bad) ==> st(old(self).nodes[k]) == NodeStatus::Bad
+                                && forall|j: int| 0 <= j < k ==> st(#[trigger] old(self).nodes[j]) != NodeStatus::Bad))
+                && (!r ==> final(self).nodes == old(self).nodes),
+    {
+        broadcast use node_status_ord_ax;
+        let new_node_status = new_node.status();
+        if new_node_status == NodeStatus::Bad {
+            assert(unchanged_except(old(self).nodes, self.nodes, 0));
+            return true;
+        }
+        let ghost b0 = old(self).nodes@;
+
+        // See if this node is already in the table, in that case replace it if it
+        // has a higher or equal status to the current node.
+        if let Some(index) = vx_position(&self.nodes, |node: &Node| -> (b: bool) ensures b == same_handle(*node, new_node) { *node == new_node }) {
+            // Note, we can't just compare the status and if it's better or equal then replace the
+            // old node with the new one. Doing so would erase information already stored locally.
+            self.nodes[index].update(new_node);
+            proof {
+                lemma_first_is(b0, p_same(new_node), 0, index as int);
+                assert(self.nodes@ =~= b0.update(index as int, b0[index as int].update_spec(new_node)));
+                assert(unchanged_except(old(self).nodes, self.nodes, index as int));
+                assert(same_handle(old(self).nodes[index as int], new_node));
+            }
+
+            return true;
+        }
+
+        // See if any lower priority nodes are present in the table, we cant do
+        // nodes that have equal status because we have to prefer longer lasting
+        // nodes in the case of a good status which helps with stability.
+        let replace_index = match vx_position(&self.nodes, |node: &Node| -> (b: bool) ensures b == (st(*node) == NodeStatus::Bad) { node.status() == NodeStatus::Bad }) {
+            Some(index) => Some(index),
+            None => vx_position(&self
+                .nodes
+                , |node: &Node| -> (b: bool) ensures b == (rank(st(*node)) < rank(new_node_status)) { node.status() < new_node_status }),
+        };
+        proof {
+            lemma_first_is(b0, p_same(new_node), 0, 8);
+        }
+        if let Some(index) = replace_index {
+            self.nodes[index] = new_node;
+            proof {
+                if exists|i: int| 0 <= i < 8 && st(#[trigger] b0[i]) == NodeStatus::Bad {
+                    lemma_first_is(b0, p_bad(), 0, index as int);
+                } else {
+                    lemma_first_is(b0, p_bad(), 0, 8);
+                    lemma_first_is(b0, p_lower(st(new_node)), 0, index as int);
+                }
+                assert(self.nodes@ =~= b0.update(index as int, new_node));
+                assert(unchanged_except(old(self).nodes, self.nodes, index as int));
+                assert(rank(st(old(self).nodes[index as int])) < rank(st(new_node)));
+            }
+
+            true
+        } else {
+            proof {
+                assert(unchanged_except(old(self).nodes, self.nodes, 0));
+                lemma_first_is(b0, p_bad(), 0, 8);
+                lemma_first_is(b0, p_lower(st(new_node)), 0, 8);
+            }
+            false
+        }
+    }
+//@end
+}
+
+// ================= table.rs =================
+//@begin const src/table.rs - MAX_BUCKETS
+pub const MAX_BUCKETS: usize = INFO_HASH_LEN * 8;
+//@end
+pub uninterp spec fn lbc(a: NodeId, b: NodeId) -> nat;
+// proved-by: kx/lz_bounds
+pub broadcast axiom fn lbc_ax(a: NodeId, b: NodeId)
+    ensures #[trigger] lbc(a, b) <= 160, (lbc(a, b) == 160) == (a == b);
+
+#[verifier::external_body]
+pub fn leading_bit_count(local_node: NodeId, remote_node: NodeId) -> (r: usize)
+    ensures r == lbc(local_node, remote_node)
+{ unimplemented!() }
+
+// the placeholder `Bucket::new` fills every slot with (Node::as_bad of id 0 / 127.0.0.1:0)
+pub uninterp spec fn filler() -> Node;
+pub broadcast axiom fn filler_ax() ensures #[trigger] filler().last_response is None, filler().wf();
+pub open spec fn live(n: Node) -> bool { st(n) != NodeStatus::Bad }
+
+// a bucket that received `cnt` live nodes since it was created: they sit in front, placeholders behind
+pub open spec fn shaped(b: Seq<Node>, cnt: int) -> bool {
+    b.len() == 8 && 0 <= cnt <= 8
+    && (forall|k: int| 0 <= k < cnt ==> live(#[trigger] b[k]))
+    && (forall|k: int| cnt <= k < 8 ==> #[trigger] b[k] == filler())
+}
+pub proof fn lemma_add_to_shaped(b: Seq<Node>, cnt: int, x: Node)
+    requires shaped(b, cnt), cnt < 8, live(x), forall|k: int| 0 <= k < cnt ==> !same_handle(#[trigger] b[k], x)
+    ensures bucket_add_spec(b, x) == (b.update(cnt, x), true), shaped(b.update(cnt, x), cnt + 1)
+{
+    broadcast use filler_ax;
+    assert(st(filler()) == NodeStatus::Bad);
+    if same_handle(filler(), x) {
+        lemma_first_is(b, p_same(x), 0, cnt);
+        assert(b[cnt].update_spec(x) == x);
+    } else {
+        assert forall|j: int| 0 <= j < 8 implies !p_same(x)(#[trigger] b[j]) by { if j >= cnt { assert(b[j] == filler()); } }
+        lemma_first_is(b, p_same(x), 0, 8);
+        lemma_first_is(b, p_bad(), 0, cnt);
+    }
+}
+
+impl Bucket {
+    #[verifier::external_body]
+    pub fn new() -> (b: Bucket)
+        ensures b.wf(), forall|i: int| 0 <= i < 8 ==> #[trigger] b.nodes[i] == filler()
+    { unimplemented!() }
+
+
+    pub open spec fn nodup(&self) -> bool {
+        forall|i: int, j: int| 0 <= i < j < 8 && real(#[trigger] self.nodes[j]) ==> !same_handle(#[trigger] self.nodes[i], self.nodes[j])
+    }
+}
+
+//@begin type src/table.rs - struct RoutingTable
+pub struct RoutingTable {
+    pub buckets: Vec<Bucket>,
+    pub node_id: NodeId,
+    pub routers: HashSet<SocketAddr>,
+}
+//@end
+pub open spec fn placed(t: RoutingTable, i: int, n: Node) -> bool {
+    real(n) ==> lbc(t.node_id, n.handle.id) != 160
+        && (i < t.buckets.len() - 1 ==> lbc(t.node_id, n.handle.id) == i)
+        && (i == t.buckets.len() - 1 ==> lbc(t.node_id, n.handle.id) >= i)
+}
+
+pub open spec fn at(t: RoutingTable, i: int, k: int) -> Node { t.buckets[i].nodes[k] }
+pub open spec fn slot_is(t: RoutingTable, x: Node, i: int, k: int) -> bool { 0 <= i < t.buckets.len() && 0 <= k < 8 && t.buckets[i].nodes[k] == x }
+pub open spec fn present(t: RoutingTable, x: Node) -> bool { exists|i: int, k: int| #[trigger] slot_is(t, x, i, k) }
+pub open spec fn placement_spec(num_same_bits: int, num_buckets: int) -> int { if num_same_bits >= num_buckets { num_buckets - 1 } else { num_same_bits } }
+// when the target bucket can take the node, `add_node` is exactly the bucket-level function on that bucket and a no-op elsewhere
+pub open spec fn no_split_step(o: RoutingTable, f: RoutingTable, node: Node) -> bool {
+    let l = lbc(o.node_id, node.handle.id) as int;
+    let b = placement_spec(l, o.buckets.len() as int);
+    st(node) != NodeStatus::Bad && l != 160 && bucket_add_spec(o.buckets[b].nodes@, node).1 ==>
+        f.buckets.len() == o.buckets.len() && f.buckets[b].nodes@ == bucket_add_spec(o.buckets[b].nodes@, node).0
+        && (forall|i: int| 0 <= i < o.buckets.len() && i != b ==> #[trigger] f.buckets[i] == o.buckets[i])
+}
+
+// C08: a split loses no live node
+#[verifier::opaque]
+pub open spec fn keeps_live(o: RoutingTable, f: RoutingTable) -> bool {
+    forall|i: int, k: int| 0 <= i < o.buckets.len() && 0 <= k < 8 && live(#[trigger] o.buckets[i].nodes[k]) ==> present(f, o.buckets[i].nodes[k])
+}
+// C08: offering `node` removes at most one other live node `v`, and only one of strictly lower standing
+#[verifier::opaque]
+pub open spec fn survivors(o: RoutingTable, f: RoutingTable, node: Node, v: Node) -> bool {
+    (forall|i: int, k: int| 0 <= i < o.buckets.len() && 0 <= k < 8 && live(#[trigger] o.buckets[i].nodes[k])
+        && !same_handle(o.buckets[i].nodes[k], node) && o.buckets[i].nodes[k] != v ==> present(f, o.buckets[i].nodes[k]))
+    && (present(o, v) && live(v) && !same_handle(v, node) && !present(f, v) ==> rank(st(v)) < rank(st(node)))
+}
+
+impl RoutingTable {
+    pub open spec fn wf(&self) -> bool {
+        1 <= self.buckets.len() <= 160
+        && (forall|i: int| 0 <= i < self.buckets.len() ==> (#[trigger] self.buckets[i]).wf() && self.buckets[i].nodup())
+        && (forall|i: int, k: int| 0 <= i < self.buckets.len() && 0 <= k < 8 ==> placed(*self, i, #[trigger] self.buckets[i].nodes[k]))
+        && self.routers_ok()
+    }
+}
+impl RoutingTable {
+    pub open spec fn absent(&self, node: Node) -> bool {
+        forall|i: int, k: int| 0 <= i < self.buckets.len() && 0 <= k < 8 && real(#[trigger] self.buckets[i].nodes[k]) ==> !same_handle(self.buckets[i].nodes[k], node)
+    }
+    /// fixed router set: no real entry carries a router address (C08: "never lists a router address")
+    #[verifier::opaque]
+    pub open spec fn routers_ok(&self) -> bool {
+        forall|i: int, k: int| 0 <= i < self.buckets.len() && 0 <= k < 8 && real(#[trigger] self.buckets[i].nodes[k]) ==> !self.routers@.contains(self.buckets[i].nodes[k].handle.addr)
+    }
+    pub open spec fn fresh_or_absent(&self, node: Node) -> bool {
+        st(node) == NodeStatus::Bad || node.last_request is None || self.absent(node)
+    }
+    // frame on the set of real handles: nothing appears except (possibly) `node`
+    pub open spec fn only_adds(old_t: RoutingTable, new_t: RoutingTable, node: Node) -> bool {
+        forall|m: Node| #[trigger] old_t.absent(m) && !same_handle(m, node) ==> new_t.absent(m)
+    }
+    pub open spec fn adds_nothing(old_t: RoutingTable, new_t: RoutingTable) -> bool {
+        forall|m: Node| #[trigger] old_t.absent(m) ==> new_t.absent(m)
+    }
+
+//@begin fn src/table.rs impl:RoutingTable add_node props=C08,C12
+    pub fn add_node(&mut self, node: Node)
+        requires old(self).wf(), node.wf(), old(self).fresh_or_absent(node),
+        ensures final(self).wf(), final(self).buckets.len() >= old(self).buckets.len(), final(self).node_id == old(self).node_id,
+            final(self).routers@ == old(self).routers@,
+            Self::only_adds(*old(self), *final(self), node),
+            st(node) == NodeStatus::Bad ==> *final(self) == *old(self), // @C08.bad_never_admitted
+            old(self).routers@.contains(node.handle.addr) ==> *final(self) == *old(self), // @C08.router_never_admitted
+            node.handle.id == old(self).node_id ==> *final(self) == *old(self), // @C08.own_id_never_admitted
+            !old(self).routers@.contains(node.handle.addr) ==> no_split_step(*old(self), *final(self), node), // @C08.admitted_when_room_or_worse
+            exists|v: Node| #[trigger] survivors(*old(self), *final(self), node, v), // @C08.at_most_one_strictly_worse_victim
+        decreases 160 - old(self).buckets.len(), 2int
+    {
+        broadcast use lbc_ax, sockaddr_key_model;
+        if self.routers.contains(&node.addr()) {
+            proof { lemma_survivors_refl(*self, node); }
+            return;
+        }
+
+        // Doing some checks and calculations here, outside of the recursion
+        if node.status() == NodeStatus::Bad {
+            proof { lemma_survivors_refl(*self, node); }
+            return;
+        }
+        let num_same_bits = leading_bit_count(self.node_id, node.id());
+
+        // Should not add a node that has the same id as us
+        if num_same_bits != MAX_BUCKETS {
+            self.bucket_node(node, num_same_bits);
+        } else {
+            proof { lemma_survivors_refl(*self, node); }
+        }
+    }
+//@end
+//@begin fn src/table.rs impl:RoutingTable bucket_node props=C08
+    pub fn bucket_node(&mut self, node: Node, num_same_bits: usize)
+        requires old(self).wf(), node.wf(), num_same_bits == lbc(old(self).node_id, node.handle.id), num_same_bits != 160,
+            old(self).fresh_or_absent(node), st(node) != NodeStatus::Bad, !old(self).routers@.contains(node.handle.addr),
+        ensures final(self).wf(), final(self).buckets.len() >= old(self).buckets.len(), final(self).node_id == old(self).node_id,
+            final(self).routers@ == old(self).routers@,
+            Self::only_adds(*old(self), *final(self), node),
+            no_split_step(*old(self), *final(self), node),
+            exists|v: Node| #[trigger] survivors(*old(self), *final(self), node, v),
+        decreases 160 - old(self).buckets.len(), 1int
+    {
+        let bucket_index = bucket_placement(num_same_bits, self.buckets.len());
+
+        // Try to place in correct bucket
+        if !self.buckets[bucket_index].add_node(node.clone()) {
+            proof {
+                assert(self.buckets[bucket_index as int].nodes == old(self).buckets[bucket_index as int].nodes);
+                assert(self.buckets@ =~= old(self).buckets@);
+                lemma_routers_ok_same(*old(self), *self);
+            }
+            // Bucket was full, try to split it
+            let ghost mid = *self;
+            if self.split_bucket(bucket_index) {
+                proof {
+                    assert(mid.fresh_or_absent(node));
+                    if node.last_request is Some { assert(mid.absent(node)); assert(self.absent(node)); }
+                }
+                let ghost mid2 = *self;
+                // Bucket split successfully, try to add again
+                self.bucket_node(node, num_same_bits);
+                proof {
+                    assert forall|m: Node| #[trigger] old(self).absent(m) && !same_handle(m, node) implies self.absent(m) by {
+                        assert(mid.absent(m));
+                        assert(mid2.absent(m));
+                    }
+                    let v = choose|v: Node| #[trigger] survivors(mid2, *self, node, v);
+                    lemma_keeps_live_cong(mid, *old(self), mid2);
+                    lemma_survivors_compose(*old(self), mid2, *self, node, v);
+                }
+            } else {
+                proof { lemma_survivors_same(*old(self), *self, node); }
+            }
+        } else {
+            proof {
+                lemma_survivors_one_bucket(*old(self), *self, node, bucket_index as int);
+            }
+            proof {
+                let bi = bucket_index as int;
+                assert forall|m: Node| #[trigger] old(self).absent(m) && !same_handle(m, node) implies self.absent(m) by {
+                    assert forall|i: int, k: int| 0 <= i < self.buckets.len() && 0 <= k < 8 && real(#[trigger] self.buckets[i].nodes[k]) implies !same_handle(self.buckets[i].nodes[k], m) by {
+                        if i == bi {
+                            let f = self.buckets[bi].nodes[k];
+                            let o = old(self).buckets[bi].nodes[k];
+                            if real(o) && same_handle(f, o) { assert(real(old(self).buckets[i].nodes[k])); }
+                        } else {
+                            assert(self.buckets[i] == old(self).buckets[i]);
+                        }
+                    }
+                }
+            }
+            proof { lemma_routers_ok(*old(self), *self, node); }
+        }
+    }
+//@end
+//@begin fn src/table.rs impl:RoutingTable split_bucket props=C08
+    pub fn split_bucket(&mut self, bucket_index: usize) -> (r: bool)
+        requires old(self).wf(),
+        ensures final(self).wf(), r ==> final(self).buckets.len() > old(self).buckets.len(),
+              !r ==> *final(self) == *old(self), final(self).node_id == old(self).node_id,
+              final(self).routers@ == old(self).routers@,
+              Self::adds_nothing(*old(self), *final(self)),
+              // C08: a split loses no live node
+              keeps_live(*old(self), *final(self)),
+        decreases 160 - old(self).buckets.len(), 0int
+    {
+        if !can_split_bucket(self.buckets.len(), bucket_index) {
+            proof {
+                reveal(keeps_live);
+                assert forall|i: int, k: int| 0 <= i < old(self).buckets.len() && 0 <= k < 8 && live(#[trigger] old(self).buckets[i].nodes[k]) implies present(*self, old(self).buckets[i].nodes[k]) by {
+                    assert(slot_is(*self, old(self).buckets[i].nodes[k], i, k));
+                }
+            }
+            return false;
+        }
+
+        let split_bucket = match self.buckets.pop() {
+            Some(bucket) => bucket,
+            None => panic!("no buckets present in RoutingTable - implementation error"),
+        };
+
+        // Push two more buckets to distribute nodes between
+        self.buckets.push(Bucket::new());
+        self.buckets.push(Bucket::new());
+
+        let ghost n = old(self).buckets.len() as int;
+        let ghost t0 = *self;
+        proof {
+            broadcast use lbc_ax, filler_ax;
+            assert(self.buckets.len() == n + 1);
+            assert forall|k: int| 0 <= k < 8 implies !real(#[trigger] self.buckets[n - 1].nodes[k]) && !real(#[trigger] self.buckets[n].nodes[k]) by {
+                assert(self.buckets[n - 1].nodes[k] == filler()); assert(self.buckets[n].nodes[k] == filler());
+            }
+            assert(split_bucket == old(self).buckets[n - 1]);
+            assert forall|i: int| 0 <= i < n - 1 implies self.buckets[i] == old(self).buckets[i] by {}
+            assert forall|i: int, k: int| 0 <= i < self.buckets.len() && 0 <= k < 8 implies placed(*self, i, #[trigger] self.buckets[i].nodes[k]) by {
+                if i < n - 1 { assert(placed(*old(self), i, old(self).buckets[i].nodes[k])); }
+            }
+            // nothing real outside the untouched prefix
+            assert forall|m: Node| #[trigger] old(self).absent(m) implies self.absent(m) by {
+                assert forall|i: int, k: int| 0 <= i < self.buckets.len() && 0 <= k < 8 && real(#[trigger] self.buckets[i].nodes[k]) implies !same_handle(self.buckets[i].nodes[k], m) by {
+                    assert(i < n - 1);
+                    assert(real(old(self).buckets[i].nodes[k]));
+                }
+            }
+            lemma_routers_ok_nothing(*old(self), *self);
+            assert(self.wf());
+        }
+
+        proof {
+            assert(split_bucket.wf());
+            assert(split_bucket.nodup());
+            assert(t0.wf());
+            assert(forall|k: int| 0 <= k < 8 ==> !real(#[trigger] t0.buckets[n - 1].nodes[k]));
+            assert(forall|k: int| 0 <= k < 8 ==> !real(#[trigger] t0.buckets[n].nodes[k]));
+            assert(self.buckets.len() <= 160);
+        }
+        let ghost mut c1: int = 0;
+        let ghost mut c2: int = 0;
+        proof {
+            broadcast use filler_ax;
+            assert(shaped(self.buckets[n - 1].nodes@, 0));
+            assert(shaped(self.buckets[n].nodes@, 0));
+        }
+        for node in it: split_bucket.nodes.iter()
+            invariant self.wf(), self.buckets.len() == n + 1, self.buckets.len() <= 160, n < 160, self.routers@ == old(self).routers@,
+               // survivors
+               shaped(self.buckets[n - 1].nodes@, c1), shaped(self.buckets[n].nodes@, c2), 0 <= c1, 0 <= c2, c1 + c2 <= it.index@,
+               forall|i: int| 0 <= i < n - 1 ==> #[trigger] self.buckets[i] == old(self).buckets[i],
+               forall|kk: int| 0 <= kk < it.index@ && live(#[trigger] split_bucket.nodes[kk]) ==> present(*self, split_bucket.nodes[kk]),
+               forall|k: int, j: int| 0 <= k < c1 && it.index@ <= j < 8 && real(#[trigger] split_bucket.nodes[j]) ==> !same_handle(#[trigger] self.buckets[n - 1].nodes[k], split_bucket.nodes[j]),
+               forall|k: int, j: int| 0 <= k < c2 && it.index@ <= j < 8 && real(#[trigger] split_bucket.nodes[j]) ==> !same_handle(#[trigger] self.buckets[n].nodes[k], split_bucket.nodes[j]), self.node_id == old(self).node_id, split_bucket.wf(), split_bucket.nodup(),
+               n == old(self).buckets.len(), old(self).wf(), split_bucket == old(self).buckets[n - 1],
+               it.snapshot@.remaining().len() == 8,
+               forall|i: int| 0 <= i < 8 ==> *(#[trigger] it.snapshot@.remaining()[i]) == split_bucket.nodes[i],
+               0 <= it.index@ <= 8,
+               t0.wf(), t0.buckets.len() == n + 1, t0.node_id == old(self).node_id,
+               forall|i: int| 0 <= i < n - 1 ==> #[trigger] t0.buckets[i] == old(self).buckets[i],
+               forall|k: int| 0 <= k < 8 ==> !real(#[trigger] t0.buckets[n - 1].nodes[k]),
+               forall|k: int| 0 <= k < 8 ==> !real(#[trigger] t0.buckets[n].nodes[k]),
+               // real handles now present: those of t0 plus the re-inserted prefix of the split bucket
+               forall|m: Node| #[trigger] t0.absent(m) && (forall|k: int| 0 <= k < it.index@ && real(#[trigger] split_bucket.nodes[k]) ==> !same_handle(m, split_bucket.nodes[k])) ==> self.absent(m),
+        {
+            proof {
+                broadcast use lbc_ax;
+                let idx = it.index@ as int;
+                assert(idx < 8);
+                assert(*node == split_bucket.nodes[idx]);
+                let m = *node;
+                if st(m) != NodeStatus::Bad && m.last_request is Some {
+                    assert(real(m));
+                    // absent in t0: prefix buckets hold ids at a different distance, fresh buckets hold nothing real
+                    assert(placed(*old(self), n - 1, old(self).buckets[n - 1].nodes[idx]));
+                    assert forall|i: int, k: int| 0 <= i < t0.buckets.len() && 0 <= k < 8 && real(#[trigger] t0.buckets[i].nodes[k]) implies !same_handle(t0.buckets[i].nodes[k], m) by {
+                        if i == n - 1 { assert(!real(t0.buckets[n - 1].nodes[k])); }
+                        if i == n { assert(!real(t0.buckets[n].nodes[k])); }
+                        assert(i < n - 1);
+                        assert(t0.buckets[i] == old(self).buckets[i]);
+                        assert(placed(*old(self), i, old(self).buckets[i].nodes[k]));
+                    }
+                    assert(t0.absent(m));
+                    assert forall|k: int| 0 <= k < idx && real(#[trigger] split_bucket.nodes[k]) implies !same_handle(m, split_bucket.nodes[k]) by {}
+                    assert(self.absent(m));
+                }
+            }
+            let ghost before = *self;
+            proof {
+                broadcast use lbc_ax;
+                let idx = it.index@ as int;
+                let x = *node;
+                if live(x) {
+                    assert(real(x));
+                    assert(!self.routers@.contains(x.handle.addr)) by {
+                        reveal(RoutingTable::routers_ok);
+                        assert(real(old(self).buckets[n - 1].nodes[idx]));
+                    }
+                    assert(placed(*old(self), n - 1, old(self).buckets[n - 1].nodes[idx]));
+                    let l = lbc(self.node_id, x.handle.id) as int;
+                    let b = placement_spec(l, n + 1);
+                    assert(b == n - 1 || b == n);
+                    if b == n - 1 { lemma_add_to_shaped(self.buckets[n - 1].nodes@, c1, x); }
+                    else { lemma_add_to_shaped(self.buckets[n].nodes@, c2, x); }
+                }
+            }
+            self.add_node(node.clone());
+            proof {
+                broadcast use lbc_ax;
+                let idx = it.index@ as int;
+                let x = *node;
+                if live(x) {
+                    let l = lbc(before.node_id, x.handle.id) as int;
+                    let b = placement_spec(l, n + 1);
+                    if b == n - 1 {
+                        assert(self.buckets[n - 1].nodes@ == before.buckets[n - 1].nodes@.update(c1, x));
+                        assert(slot_is(*self, x, n - 1, c1));
+                        assert forall|kk: int| 0 <= kk < idx && live(#[trigger] split_bucket.nodes[kk]) implies present(*self, split_bucket.nodes[kk]) by {
+                            let y = split_bucket.nodes[kk];
+                            let (i0, k0) = choose|i0: int, k0: int| slot_is(before, y, i0, k0);
+                            if i0 == n - 1 { assert(k0 != c1) by { if k0 >= c1 { assert(before.buckets[n - 1].nodes[k0] == filler()); broadcast use filler_ax; } } assert(self.buckets[n - 1].nodes@[k0] == before.buckets[n - 1].nodes@[k0]); }
+                            else { assert(self.buckets[i0] == before.buckets[i0]); }
+                            assert(slot_is(*self, y, i0, k0));
+                        }
+                        c1 = c1 + 1;
+                    } else {
+                        assert(self.buckets[n].nodes@ == before.buckets[n].nodes@.update(c2, x));
+                        assert(slot_is(*self, x, n, c2));
+                        assert forall|kk: int| 0 <= kk < idx && live(#[trigger] split_bucket.nodes[kk]) implies present(*self, split_bucket.nodes[kk]) by {
+                            let y = split_bucket.nodes[kk];
+                            let (i0, k0) = choose|i0: int, k0: int| slot_is(before, y, i0, k0);
+                            if i0 == n { assert(k0 != c2) by { if k0 >= c2 { assert(before.buckets[n].nodes[k0] == filler()); broadcast use filler_ax; } } assert(self.buckets[n].nodes@[k0] == before.buckets[n].nodes@[k0]); }
+                            else { assert(self.buckets[i0] == before.buckets[i0]); }
+                            assert(slot_is(*self, y, i0, k0));
+                        }
+                        c2 = c2 + 1;
+                    }
+                }
+                assert forall|m: Node| #[trigger] t0.absent(m) && (forall|k: int| 0 <= k < idx + 1 && real(#[trigger] split_bucket.nodes[k]) ==> !same_handle(m, split_bucket.nodes[k])) implies self.absent(m) by {
+                    assert(forall|k: int| 0 <= k < idx && real(#[trigger] split_bucket.nodes[k]) ==> !same_handle(m, split_bucket.nodes[k]));
+                    assert(before.absent(m));
+                    if st(split_bucket.nodes[idx]) != NodeStatus::Bad {
+                        assert(real(split_bucket.nodes[idx]));
+                        assert(!same_handle(m, split_bucket.nodes[idx]));
+                    }
+                }
+            }
+        }
+
+        proof {
+            reveal(keeps_live);
+            assert forall|i: int, k: int| 0 <= i < old(self).buckets.len() && 0 <= k < 8 && live(#[trigger] old(self).buckets[i].nodes[k]) implies present(*self, old(self).buckets[i].nodes[k]) by {
+                if i < n - 1 { assert(slot_is(*self, old(self).buckets[i].nodes[k], i, k)); }
+                else { assert(split_bucket.nodes[k] == old(self).buckets[i].nodes[k]); }
+            }
+            assert forall|m: Node| #[trigger] old(self).absent(m) implies self.absent(m) by {
+                assert(t0.absent(m));
+                assert forall|k: int| 0 <= k < 8 && real(#[trigger] split_bucket.nodes[k]) implies !same_handle(m, split_bucket.nodes[k]) by {
+                    assert(real(old(self).buckets[n - 1].nodes[k]));
+                }
+            }
+        }
+
+        true
+    }
+//@end
+}
+//@props C08
+pub proof fn lemma_routers_ok(o: RoutingTable, f: RoutingTable, node: Node)
+    requires RoutingTable::only_adds(o, f, node), f.routers@ == o.routers@, !o.routers@.contains(node.handle.addr), o.routers_ok()
+    ensures f.routers_ok()
+{
+    reveal(RoutingTable::routers_ok);
+    assert forall|i: int, k: int| 0 <= i < f.buckets.len() && 0 <= k < 8 && real(#[trigger] f.buckets[i].nodes[k]) implies !f.routers@.contains(f.buckets[i].nodes[k].handle.addr) by {
+        let x = f.buckets[i].nodes[k];
+        if !same_handle(x, node) {
+            assert(!f.absent(x));
+            assert(!o.absent(x));
+            let (i0, k0) = choose|i0: int, k0: int| 0 <= i0 < o.buckets.len() && 0 <= k0 < 8 && real(#[trigger] o.buckets[i0].nodes[k0]) && same_handle(o.buckets[i0].nodes[k0], x);
+            assert(o.buckets[i0].nodes[k0].handle.addr == x.handle.addr);
+        }
+    }
+}
+//@props C08
+pub proof fn lemma_routers_ok_same(o: RoutingTable, f: RoutingTable)
+    requires f.buckets@ == o.buckets@, f.routers@ == o.routers@, o.routers_ok()
+    ensures f.routers_ok()
+{
+    reveal(RoutingTable::routers_ok);
+    assert forall|i: int, k: int| 0 <= i < f.buckets.len() && 0 <= k < 8 && real(#[trigger] f.buckets[i].nodes[k]) implies !f.routers@.contains(f.buckets[i].nodes[k].handle.addr) by {
+        assert(f.buckets[i] == o.buckets@[i]);
+    }
+}
+//@props C08
+pub proof fn lemma_routers_ok_nothing(o: RoutingTable, f: RoutingTable)
+    requires RoutingTable::adds_nothing(o, f), f.routers@ == o.routers@, o.routers_ok()
+    ensures f.routers_ok()
+{
+    reveal(RoutingTable::routers_ok);
+    assert forall|i: int, k: int| 0 <= i < f.buckets.len() && 0 <= k < 8 && real(#[trigger] f.buckets[i].nodes[k]) implies !f.routers@.contains(f.buckets[i].nodes[k].handle.addr) by {
+        let x = f.buckets[i].nodes[k];
+        assert(!f.absent(x));
+        assert(!o.absent(x));
+        let (i0, k0) = choose|i0: int, k0: int| 0 <= i0 < o.buckets.len() && 0 <= k0 < 8 && real(#[trigger] o.buckets[i0].nodes[k0]) && same_handle(o.buckets[i0].nodes[k0], x);
+        assert(o.buckets[i0].nodes[k0].handle.addr == x.handle.addr);
+    }
+}
+
+pub proof fn lemma_keeps_live_cong(o: RoutingTable, o2: RoutingTable, m: RoutingTable)
+    requires keeps_live(o, m), o.buckets@ == o2.buckets@
+    ensures keeps_live(o2, m)
+{
+    reveal(keeps_live);
+    assert forall|i: int, k: int| 0 <= i < o2.buckets.len() && 0 <= k < 8 && live(#[trigger] o2.buckets[i].nodes[k]) implies present(m, o2.buckets[i].nodes[k]) by {
+        assert(o2.buckets[i] == o.buckets@[i]);
+        assert(live(o.buckets[i].nodes[k]));
+    }
+}
+
+pub proof fn lemma_survivors_compose(o: RoutingTable, m: RoutingTable, f: RoutingTable, node: Node, v: Node)
+    requires keeps_live(o, m), survivors(m, f, node, v)
+    ensures survivors(o, f, node, v)
+{
+    reveal(keeps_live); reveal(survivors);
+    assert forall|i: int, k: int| 0 <= i < o.buckets.len() && 0 <= k < 8 && live(#[trigger] o.buckets[i].nodes[k])
+        && !same_handle(o.buckets[i].nodes[k], node) && o.buckets[i].nodes[k] != v implies present(f, o.buckets[i].nodes[k]) by {
+        let x = o.buckets[i].nodes[k];
+        assert(present(m, x));
+        let (i2, k2) = choose|i2: int, k2: int| slot_is(m, x, i2, k2);
+        assert(m.buckets[i2].nodes[k2] == x);
+    }
+    if present(o, v) && live(v) && !same_handle(v, node) && !present(f, v) {
+        let (i1, k1) = choose|i1: int, k1: int| slot_is(o, v, i1, k1);
+        assert(live(o.buckets[i1].nodes[k1]));
+        assert(present(m, v));
+    }
+}
+
+// the non-split case: exactly one bucket changes, by `bucket_add_spec`
+pub proof fn lemma_survivors_one_bucket(o: RoutingTable, f: RoutingTable, node: Node, b: int)
+    requires 0 <= b < o.buckets.len(), f.buckets.len() == o.buckets.len(), st(node) != NodeStatus::Bad,
+        bucket_add_spec(o.buckets[b].nodes@, node) == (f.buckets[b].nodes@, true),
+        forall|i: int| 0 <= i < o.buckets.len() && i != b ==> #[trigger] f.buckets[i] == o.buckets[i],
+    ensures exists|v: Node| #[trigger] survivors(o, f, node, v)
+{
+    reveal(survivors);
+    let ob = o.buckets[b].nodes@;
+    let s = first(ob, p_same(node), 0);
+    let d = first(ob, p_bad(), 0);
+    let q = first(ob, p_lower(st(node)), 0);
+    lemma_first(ob, p_same(node), 0); lemma_first(ob, p_bad(), 0); lemma_first(ob, p_lower(st(node)), 0);
+    let c = if s < 8 { s } else if d < 8 { d } else { q };
+    let v = if s < 8 || d < 8 { node } else { ob[q] };
+    assert(c < 8);
+    assert forall|i: int, k: int| 0 <= i < o.buckets.len() && 0 <= k < 8 && live(#[trigger] o.buckets[i].nodes[k])
+        && !same_handle(o.buckets[i].nodes[k], node) && o.buckets[i].nodes[k] != v implies present(f, o.buckets[i].nodes[k]) by {
+        let x = o.buckets[i].nodes[k];
+        if i != b { assert(f.buckets[i] == o.buckets[i]); assert(slot_is(f, x, i, k)); }
+        else {
+            assert(o.buckets[b].nodes@[k] == x);
+            assert(k != c);
+            assert(f.buckets[b].nodes@[k] == ob[k]);
+            assert(slot_is(f, x, b, k));
+        }
+    }
+    assert(survivors(o, f, node, v));
+}
+
+pub proof fn lemma_survivors_same(o: RoutingTable, f: RoutingTable, node: Node)
+    requires o.buckets@ == f.buckets@
+    ensures survivors(o, f, node, node)
+{
+    reveal(survivors);
+    assert forall|i: int, k: int| 0 <= i < o.buckets.len() && 0 <= k < 8 && live(#[trigger] o.buckets[i].nodes[k])
+        && !same_handle(o.buckets[i].nodes[k], node) && o.buckets[i].nodes[k] != node implies present(f, o.buckets[i].nodes[k]) by {
+        assert(f.buckets[i] == o.buckets@[i]);
+        assert(slot_is(f, o.buckets[i].nodes[k], i, k));
+    }
+}
+
+pub proof fn lemma_survivors_refl(t: RoutingTable, node: Node)
+    ensures survivors(t, t, node, node)
+{
+    reveal(survivors);
+    assert forall|i: int, k: int| 0 <= i < t.buckets.len() && 0 <= k < 8 && live(#[trigger] t.buckets[i].nodes[k])
+        && !same_handle(t.buckets[i].nodes[k], node) && t.buckets[i].nodes[k] != node implies present(t, t.buckets[i].nodes[k]) by {
+        assert(slot_is(t, t.buckets[i].nodes[k], i, k));
+    }
+}
+
+//@begin fn src/table.rs - can_split_bucket props=C08
+pub fn can_split_bucket(num_buckets: usize, bucket_index: usize) -> (r: bool)
+    requires num_buckets >= 1
+    ensures r == (bucket_index == num_buckets - 1 && bucket_index != 159)
+{
+    bucket_index == num_buckets - 1 && bucket_index != MAX_BUCKETS - 1
+}
+//@end
+//@begin fn src/table.rs - bucket_placement props=C08
+pub fn bucket_placement(num_same_bits: usize, num_buckets: usize) -> (r: usize)
+    requires num_buckets >= 1
+    ensures r == (if num_same_bits >= num_buckets { (num_buckets - 1) as usize } else { num_same_bits })
+{
+    let ideal_index = num_same_bits;
+
+    if ideal_index >= num_buckets {
+        num_buckets - 1
+    } else {
+        ideal_index
+    }
+}
+//@end
+
 // ================= C10: history lemmas over the per-contact transition system =================
 // The transition functions are exactly the postconditions of the code above (f_update with f_good /
 // f_hearsay = Bucket::add_node on a repeat offer; f_remote_request / f_local_request guarded by the
